@@ -80,7 +80,7 @@ variable {d : Doc V E} {filt : Nat → List Nat} {rank : Nat → Nat} {N : Nat}
     sequential answers (e.g. empty, or filled by opening the file), any schedule: what a thread has
     answered so far are the sequential answers of a prefix of its calls; a finished thread has answered
     all its calls. -/
-theorem results_sequential (wf : WF d filt rank) (hN : ∀ r, rank r < N) {cfg : Cfg} (hg : cfg.sharedGuard = false)
+theorem results_sequential (wf : WF d filt rank) (hN : ∀ r, rank r < N) (hD : N ≤ maxNestedGets) {cfg : Cfg} (hg : cfg.sharedGuard = false)
     (slots : List (Nat × Slot V E)) (stm : List (Nat × Res V E)) (css : List (List (Prog V E)))
     (hsh : SInv d filt (ans d rank) ⟨slots, stm, [], false⟩)
     (hcalls : ∀ cs ∈ css, ∀ p ∈ cs, FineCall filt p)
@@ -90,7 +90,7 @@ theorem results_sequential (wf : WF d filt rank) (hN : ∀ r, rank r < N) {cfg :
       (t.ctl.isFinal = true → t.out = cs.map (canon (ans d rank) d)) := by
   have hcalls' : ∀ cs ∈ css, ∀ p ∈ cs, Fine filt (fun r' => rank r' < N) p :=
     fun cs hc p hp => (hcalls cs hc p hp).mono fun r _ => hN r
-  have h := (reachable_GInv wf hN hg hcalls' (init_GInv slots stm css hsh) hr).2.2 i t cs ht hcs
+  have h := (reachable_GInv wf hN hD hg hcalls' (init_GInv slots stm css hsh) hr).2.2 i t cs ht hcs
   obtain ⟨hch, done, hout, hm⟩ := h
   constructor
   · cases hres : resid t.ctl with
@@ -104,7 +104,7 @@ theorem results_sequential (wf : WF d filt rank) (hN : ∀ r, rank r < N) {cfg :
 
 /-- the same, against the run of C12: a finished thread answered what its calls answer when they are run
     alone, in order, on a freshly opened document without any cache -/
-theorem results_sequential_run (wf : WF d filt rank) (hN : ∀ r, rank r < N) {cfg : Cfg} (hg : cfg.sharedGuard = false)
+theorem results_sequential_run (wf : WF d filt rank) (hN : ∀ r, rank r < N) (hD : N ≤ maxNestedGets) {cfg : Cfg} (hg : cfg.sharedGuard = false)
     (css : List (List (Prog V E))) (hcalls : ∀ cs ∈ css, ∀ p ∈ cs, FineCall filt p)
     {s : State V E} (hr : Reachable d cfg (State.init [] [] css) s)
     (i : Nat) (t : Thread V E) (cs : List (Prog V E)) (ht : s.threads[i]? = some t) (hcs : css[i]? = some cs)
@@ -112,11 +112,11 @@ theorem results_sequential_run (wf : WF d filt rank) (hN : ∀ r, rank r < N) {c
     t.out = Cache.outputs d Cache.Cfg.none fuel cs := by
   have hsh : SInv d filt (ans d rank) ⟨[], [], [], false⟩ := by
     constructor <;> intro r <;> simp
-  rw [(results_sequential wf hN hg [] [] css hsh hcalls hr i t cs ht hcs).2 hfin]
-  exact (outputs_spec_partial wf hN Cache.Cfg.none rfl fuel hf cs (hcalls cs (List.mem_of_getElem? hcs))).symm
+  rw [(results_sequential wf hN hD hg [] [] css hsh hcalls hr i t cs ht hcs).2 hfin]
+  exact (outputs_spec_partial wf hN hD Cache.Cfg.none rfl fuel hf cs (hcalls cs (List.mem_of_getElem? hcs))).symm
 
 /-- on a document with well-founded typed loads the guard never fires at all -/
-theorem no_recursive_error_of_acyclic (wf : WF d filt rank) (hN : ∀ r, rank r < N) {cfg : Cfg} (hg : cfg.sharedGuard = false)
+theorem no_recursive_error_of_acyclic (wf : WF d filt rank) (hN : ∀ r, rank r < N) (hD : N ≤ maxNestedGets) {cfg : Cfg} (hg : cfg.sharedGuard = false)
     (slots : List (Nat × Slot V E)) (stm : List (Nat × Res V E)) (css : List (List (Prog V E)))
     (hsh : SInv d filt (ans d rank) ⟨slots, stm, [], false⟩)
     (hcalls : ∀ cs ∈ css, ∀ p ∈ cs, FineCall filt p)
@@ -125,7 +125,7 @@ theorem no_recursive_error_of_acyclic (wf : WF d filt rank) (hN : ∀ r, rank r 
     (T r : Nat) (k : Res V E → Prog V E) (hc : t.ctl = .enter T r k) : r ∉ t.chain := by
   have hcalls' : ∀ cs ∈ css, ∀ p ∈ cs, Fine filt (fun r' => rank r' < N) p :=
     fun cs hc p hp => (hcalls cs hc p hp).mono fun r _ => hN r
-  have h := (reachable_GInv wf hN hg hcalls' (init_GInv slots stm css hsh) hr).2.2 i t cs ht hcs
+  have h := (reachable_GInv wf hN hD hg hcalls' (init_GInv slots stm css hsh) hr).2.2 i t cs ht hcs
   obtain ⟨⟨hch, _⟩, done, hout, hm⟩ := h
   rw [hc] at hm hch
   simp only [resid] at hm
@@ -142,7 +142,7 @@ theorem no_recursive_error_of_acyclic (wf : WF d filt rank) (hN : ∀ r, rank r 
     calls, object cache on or off, any schedule: whenever some thread is not finished, some thread can
     take a step. (A waiting thread waits for a slot whose owner is loading something of *smaller* rank, so
     a cycle of waiting threads is impossible; every thread that is not waiting is enabled.) -/
-theorem deadlock_free_of_acyclic (wf : WF d filt rank) (hN : ∀ r, rank r < N) {cfg : Cfg} (hg : cfg.sharedGuard = false)
+theorem deadlock_free_of_acyclic (wf : WF d filt rank) (hN : ∀ r, rank r < N) (hD : N ≤ maxNestedGets) {cfg : Cfg} (hg : cfg.sharedGuard = false)
     (stm : List (Nat × Res V E)) (css : List (List (Prog V E)))
     (hsh : SInv d filt (ans d rank) ⟨[], stm, [], false⟩)
     (hcalls : ∀ cs ∈ css, ∀ p ∈ cs, FineCall filt p)
@@ -150,7 +150,7 @@ theorem deadlock_free_of_acyclic (wf : WF d filt rank) (hN : ∀ r, rank r < N) 
     s.deadlocked d cfg = false := by
   have hcalls' : ∀ cs ∈ css, ∀ p ∈ cs, Fine filt (fun r' => rank r' < N) p :=
     fun cs hc p hp => (hcalls cs hc p hp).mono fun r _ => hN r
-  obtain ⟨hsi, hlen, hth⟩ := reachable_GInv wf hN hg hcalls' (init_GInv [] stm css hsh) hr
+  obtain ⟨hsi, hlen, hth⟩ := reachable_GInv wf hN hD hg hcalls' (init_GInv [] stm css hsh) hr
   obtain ⟨hown, hwait⟩ := reachable_ownWait (init_ownWait stm css) hr
   -- facts about one thread
   have thr : ∀ (i : Nat) (t : Thread V E), s.threads[i]? = some t → ∃ cs, css[i]? = some cs ∧ ChainOK t ∧
@@ -243,7 +243,8 @@ end Acyclic
 /-- threads running the property's call kinds on a generated document that passes the decidable domain
     check `CacheDoc.okRanks` (evaluated by the model driver on every generated case): sequential
     answers and no deadlock, for every schedule -/
-theorem generated_concurrent (d : CacheDoc.Desc) (h : CacheDoc.okRanks d = true) {cfg : Cfg} (hg : cfg.sharedGuard = false)
+theorem generated_concurrent (d : CacheDoc.Desc) (h : CacheDoc.okRanks d = true)
+    (hD : d.objs.length + 2 ≤ maxNestedGets) {cfg : Cfg} (hg : cfg.sharedGuard = false)
     (root : CacheDoc.R) (calls : List (List CacheDoc.CallK))
     {s : State CacheDoc.Val String}
     (hr : Reachable (CacheDoc.toDoc d) cfg (State.init [] [] (calls.map fun cs => cs.map (·.prog d root))) s) :
@@ -262,9 +263,9 @@ theorem generated_concurrent (d : CacheDoc.Desc) (h : CacheDoc.okRanks d = true)
     exact CacheDoc.callK_fine h root c
   have hsh : SInv (CacheDoc.toDoc d) (CacheDoc.filtersOf d) (ans (CacheDoc.toDoc d) (CacheDoc.rk d)) ⟨[], [], [], false⟩ := by
     constructor <;> intro r <;> simp
-  refine ⟨deadlock_free_of_acyclic wf hN hg [] _ hsh hcalls hr, no_pop_assert_failure hg [] [] _ hr, ?_⟩
+  refine ⟨deadlock_free_of_acyclic wf hN hD hg [] _ hsh hcalls hr, no_pop_assert_failure hg [] [] _ hr, ?_⟩
   intro i t cs ht hcs hfin
-  exact results_sequential_run wf hN hg _ hcalls hr i t _ ht (by simp [hcs]) hfin _ (Nat.le_refl _)
+  exact results_sequential_run wf hN hD hg _ hcalls hr i t _ ht (by simp [hcs]) hfin _ (Nat.le_refl _)
 
 /-! ## Non-vacuity
 
